@@ -286,7 +286,11 @@ class Env:
             d0, kw0, gen = self.make(inner, cl, tr, supplied)
             data = iterators.DataIterator(d0, **kw0)
             # the configuration of a DataIterator is fixed when it is built: what is passed later is ignored
-            kw = {"checklines": (cl + 3) % 5, "transform": None}
+            # (also the same transform handed over once more as another callable object - a functools.partial of it, as
+            # a bound method or a lambda built at the second call site would be: it is NOT applied a second time)
+            import functools
+            again = functools.partial(tr) if (tr is not None and self.di_inner % 2 == 0) else None
+            kw = {"checklines": (cl + 3) % 5, "transform": again}
             self.last_inner = inner
         else:
             raise ValueError(form)
